@@ -11,6 +11,15 @@ def wavgI (f : Rat → I) (xs ws : List Rat) (x : Rat) : I :=
   let W := sum ws
   I.scale (1 / W) ((xs.zip ws).foldl (fun s (xi, w) => I.add s (I.scale w (f (x - xi)))) (I.ofRat 0))
 
+/-- the same average with exact rational end points: `I.add`/`I.mul` round to the grid 2^-128, which is fine for
+absolute tolerances but wipes out values far below it; the relative clauses (deep tails of the unbounded
+Gaussian estimate, down to subnormal densities) need the relative precision `I.phi`/`I.Phi` deliver.
+(weights are non-negative, so the lower/upper ends combine monotonically) -/
+def wavgExact (f : Rat → I) (xs ws : List Rat) (x : Rat) : I :=
+  let W := sum ws
+  let r := (xs.zip ws).foldl (fun (s : Rat × Rat) (xi, w) => let e := f (x - xi); (s.1 + w * e.lo, s.2 + w * e.hi)) (0, 0)
+  ⟨r.1 / W, r.2 / W⟩
+
 inductive Kern | epan | gauss | delta deriving BEq
 
 def kernPDF (k : Kern) (h u : Rat) : I :=
@@ -102,7 +111,16 @@ def handleKDE (ins outs : List J) : Verdict :=
       let inUnit := gc.all fun v => match v with | .fin q => decide (-(1 / 1000000000000) ≤ q ∧ q ≤ 1 + 1 / 1000000000000) | _ => false
       -- queries are sent ascending: CDF must be non-decreasing
       let mono := (gc.zip (gc.drop 1)).all fun (a, b) => match a, b with | .fin p, .fin q => decide (p ≤ q + 1 / 1000000000000) | _, _ => false
-      let pdfOk := k == .delta || (qs.zip gp).all fun (x, g) => inTol g (pdfM x)
+      -- likewise the density of an unbounded Gaussian estimate is an average of positive terms: it is held to its
+      -- own size, down to a few units of the smallest subnormal times the factor 1/h the code multiplies by
+      let inTolRelP (g : V) (e : I) : Bool :=
+        match g with
+        | .fin v => let t := 8 * pow2 (-1074) * (1 + 1 / h) + (1 / 1000000000) * ratMax (ratAbs e.lo) (ratAbs e.hi); decide (e.lo - t ≤ v ∧ v ≤ e.hi + t)
+        | _ => false
+      let relPDF := (match b with | .none => true | _ => false) && k == .gauss && ws.all (· ≥ 0)
+      let pdfX (x : Rat) : I := wavgExact (fun u => let e := I.phi (u / h); ⟨e.lo / h, e.hi / h⟩) xs ws x
+      let cdfX (x : Rat) : I := wavgExact (fun u => I.Phi (u / h)) xs ws x
+      let pdfOk := k == .delta || (qs.zip gp).all fun (x, g) => if relPDF then inTolRelP g (pdfX x) else inTol g (pdfM x)
       -- without boundaries the CDF is an average of kernel CDFs (non-negative terms): in the lower half it is
       -- held to its own size (1e-9 relative), however small
       let inTolRel (g : V) (e : I) : Bool :=
@@ -110,9 +128,13 @@ def handleKDE (ins outs : List J) : Verdict :=
         | .fin v => let t := 1 / pow2 1000 + (1 / 1000000000) * ratMax (ratAbs e.lo) (ratAbs e.hi); decide (e.lo - t ≤ v ∧ v ≤ e.hi + t)
         | _ => false
       let relCDF := (match b with | .none => true | _ => false) && k == .gauss
-      let cdfOk := (qs.zip gc).all fun (x, g) => let e := cdfM x; if relCDF && e.hi < 1 / 2 then inTolRel g e else inTol g e
-      let firstBad : String := match (qs.zip (gp.zip gc)).find? (fun (x, g, c) => !(k == .delta || inTol g (pdfM x)) || !inTol c (cdfM x)) with
-        | some (x, g, c) => s!"x={ratStr x} pdf go={g.str} model=[{ratStr (pdfM x).lo},{ratStr (pdfM x).hi}] cdf go={c.str} model=[{ratStr (cdfM x).lo},{ratStr (cdfM x).hi}]"
+      let cdfOk := (qs.zip gc).all fun (x, g) => let e := cdfM x; if relCDF && relPDF && e.hi < 1 / 2 then inTolRel g (cdfX x) else inTol g e
+      let firstBad : String := match (qs.zip (gp.zip gc)).find? (fun (x, g, c) => !(k == .delta || (if relPDF then inTolRelP g (pdfX x) else inTol g (pdfM x))) || !inTol c (cdfM x)) with
+        | some (x, g, c) =>
+          let sci (q : Rat) : String := if q == 0 then "0" else let e := I.ilog2 (ratAbs q); s!"{ratStr (q / pow2 e)}*2^{e}"
+          let gs (v : V) : String := match v with | .fin q => sci q | v => v.str
+          let pm := if relPDF then pdfX x else pdfM x
+          s!"x={ratStr x} pdf go={gs g} model=[{sci pm.lo},{sci pm.hi}] cdf go={gs c} model=[{sci (cdfM x).lo},{sci (cdfM x).hi}]"
         | none => ""
       -- Bounds: finite, ordered, inside the boundaries, at least 98 % of the mass
       let boundsChecks := match blo, bhi with
